@@ -232,6 +232,45 @@ pub fn search(twin: &str, case: Option<&str>, seed: u64) -> Option<Value> {
             }
             None
         }
+        "c01.domain_cast" => {
+            for (name, kind) in CAST_OPS {
+                if let Some(c) = case { if c != *name { continue; } }
+                for w in [8u32, 16, 32, 64] { for t in [8u32, 16, 32, 64, 128] {
+                    if matches!(kind, CastOpType::IntZExt | CastOpType::IntSExt) && t < w { continue; }
+                    let n = if w == 8 { 256 } else { 1500 };
+                    for i in 0..n {
+                        let u = if w == 8 { i as u128 } else { rng.interesting(w) };
+                        if let Some(v) = check_domain_cast(name, *kind, w, u, t) { return Some(v); }
+                    }
+                }}
+            }
+            None
+        }
+        "c01.domain_un_op" => {
+            for (name, op) in UN_OPS {
+                if let Some(c) = case { if c != *name { continue; } }
+                for w in [8u32, 16, 32, 64] {
+                    let n = if w == 8 { 256 } else { 3000 };
+                    for i in 0..n {
+                        let u = if w == 8 { i as u128 } else { rng.interesting(w) };
+                        // BoolNegate is defined on the 1-byte booleans 0 and 1 only (documented assert in the code under test)
+                        if *op == UnOpType::BoolNegate && (w != 8 || u > 1) { continue; }
+                        if let Some(v) = check_domain_un(name, *op, w, u) { return Some(v); }
+                    }
+                }
+            }
+            None
+        }
+        "c01.domain_subpiece" => {
+            for w in [8u32, 16, 32, 64] { for low in 0..(w / 8) { for size in 1..=(w / 8 - low) {
+                let n = if w == 8 { 256 } else { 1000 };
+                for i in 0..n {
+                    let u = if w == 8 { i as u128 } else { rng.interesting(w) };
+                    if let Some(v) = check_domain_subpiece(w, u, low, size) { return Some(v); }
+                }
+            }}}
+            None
+        }
         "c01.subpiece" => {
             for w in [8u32, 16, 32, 64] { for low in 0..(w / 8) { for size in 1..=(w / 8) {
                 let n = if w == 8 { 256 } else { 3000 };
@@ -330,6 +369,54 @@ fn check_cast(name: &str, kind: CastOpType, w: u32, u: u128, t: u32) -> Option<V
     } else { None }
 }
 
+/// BitvectorDomain::{cast, un_op, subpiece} on a known value: Value(v) exactly when the reference defines v, Top of the
+/// result size otherwise (property: "reports 'unknown' instead of a value; never a wrong value").
+fn domain_observed(caught: std::thread::Result<cwe_checker_lib::abstract_domain::BitvectorDomain>, want: Option<(u32, u128)>, out_bytes: u32) -> (bool, Value) {
+    use cwe_checker_lib::abstract_domain::BitvectorDomain;
+    match caught {
+        Err(_) => (true, json!("panic")),
+        Ok(BitvectorDomain::Value(v)) => (want != Some(val(&v)), json!({"Value": {"width": val(&v).0, "value": hex(val(&v).1)}})),
+        Ok(BitvectorDomain::Top(size)) => (want.is_some() || u64::from(size) as u32 != out_bytes, json!({"Top": u64::from(size)})),
+    }
+}
+fn quiet<T>(f: impl FnOnce() -> T + std::panic::UnwindSafe) -> std::thread::Result<T> {
+    let prev = std::panic::take_hook();
+    std::panic::set_hook(Box::new(|_| {}));
+    let r = std::panic::catch_unwind(f);
+    std::panic::set_hook(prev);
+    r
+}
+fn expected_json(want: Option<(u32, u128)>, out_bytes: u32) -> Value {
+    match want { Some((w, u)) => json!({"Value": {"width": w, "value": hex(u)}}), None => json!({"Top": out_bytes}) }
+}
+fn check_domain_cast(name: &str, kind: CastOpType, w: u32, u: u128, t: u32) -> Option<Value> {
+    use cwe_checker_lib::abstract_domain::{BitvectorDomain, RegisterDomain};
+    let a = BitvectorDomain::Value(mk(w, u));
+    let caught = quiet(move || a.cast(kind, bs((t / 8) as u64)));
+    let want = ref_cast(kind, w, u, t);
+    let (bad, observed) = domain_observed(caught, want, t / 8);
+    if bad { Some(json!({"input": {"fn": "domain_cast", "op": name, "w": w, "a": hex(u), "t": t}, "observed": observed, "expected": expected_json(want, t / 8)})) } else { None }
+}
+fn check_domain_un(name: &str, op: UnOpType, w: u32, u: u128) -> Option<Value> {
+    use cwe_checker_lib::abstract_domain::{BitvectorDomain, RegisterDomain};
+    let a = BitvectorDomain::Value(mk(w, u));
+    let caught = quiet(move || a.un_op(op));
+    // the reference of the bitvector-level twin: None = unsupported (float) operation
+    let want = ref_un(op, w, u);
+    // P-Code result size: FloatNaN yields a 1-byte boolean, every other unary operation keeps the operand size
+    let out = if op == UnOpType::FloatNaN { 1 } else { w / 8 };
+    let (bad, observed) = domain_observed(caught, want, out);
+    if bad { Some(json!({"input": {"fn": "domain_un_op", "op": name, "w": w, "a": hex(u)}, "observed": observed, "expected": expected_json(want, out)})) } else { None }
+}
+fn check_domain_subpiece(w: u32, u: u128, low: u32, size: u32) -> Option<Value> {
+    use cwe_checker_lib::abstract_domain::{BitvectorDomain, RegisterDomain};
+    let a = BitvectorDomain::Value(mk(w, u));
+    let caught = quiet(move || a.subpiece(bs(low as u64), bs(size as u64)));
+    let want = Some((size * 8, (u >> (low * 8)) & mask(size * 8)));
+    let (bad, observed) = domain_observed(caught, want, size);
+    if bad { Some(json!({"input": {"fn": "domain_subpiece", "w": w, "a": hex(u), "low_byte": low, "size": size}, "observed": observed, "expected": expected_json(want, size)})) } else { None }
+}
+
 fn check_ovf(twin: &str, w: u32, ua: u128, ub: u128) -> Option<Value> {
     let (a, b) = (mk(w, ua), mk(w, ub));
     let (sa, sb) = (sval(w, ua), sval(w, ub));
@@ -369,6 +456,9 @@ pub fn replay(twin: &str, input: &Value) -> Value {
         "bin_op" => check_bin(input["op"].as_str().unwrap(), find(BIN_OPS, input["op"].as_str().unwrap()), g("wa"), h("a"), g("wb"), h("b")),
         "domain_bin_op" => check_domain_bin(input["op"].as_str().unwrap(), find(BIN_OPS, input["op"].as_str().unwrap()), g("wa"), h("a"), g("wb"), h("b")),
         "un_op" => check_un(input["op"].as_str().unwrap(), find(UN_OPS, input["op"].as_str().unwrap()), g("w"), h("a")),
+        "domain_cast" => check_domain_cast(input["op"].as_str().unwrap(), find(CAST_OPS, input["op"].as_str().unwrap()), g("w"), h("a"), g("t")),
+        "domain_un_op" => check_domain_un(input["op"].as_str().unwrap(), find(UN_OPS, input["op"].as_str().unwrap()), g("w"), h("a")),
+        "domain_subpiece" => check_domain_subpiece(g("w"), h("a"), g("low_byte"), g("size")),
         "cast" => check_cast(input["op"].as_str().unwrap(), find(CAST_OPS, input["op"].as_str().unwrap()), g("w"), h("a"), g("t")),
         "subpiece" => {
             let (w, u, low, size) = (g("w"), h("a"), g("low_byte"), g("size"));
